@@ -62,7 +62,12 @@ func ruleCRASH1(c *Ctx) {
 				}
 				n++
 				construct := fmt.Sprintf("%s/panic#%s", funcKey(pk, fd), truncate(exprString(call), 30))
-				// (a) default arm of a switch over a token's Type: exhaustiveness is CRASH-3's obligation
+				// (a) reached only when a token's Type is none of a list of constants (default arm of a
+				// switch over it, or the end of an if-chain): exhaustiveness is CRASH-3's obligation
+				if tok, handled := tokenExclusion(info, par, call); tok != nil && len(handled) > 0 {
+					c.ok(rule, construct, p.Pos(call.Pos()), "reached only for a token type outside %v (exhaustiveness decided by CRASH-3)", sortedStrings(keysOfS(handled)))
+					return true
+				}
 				for q := par[call]; q != nil; q = par[q] {
 					cc, isCC := q.(*ast.CaseClause)
 					if !isCC {
@@ -193,14 +198,13 @@ func boundedConversion(c *Ctx, pk *packages.Package, fd *ast.FuncDecl, ifs *ast.
 				okAll = false
 				return true
 			}
-			lb, lo, ok1 := addConst(info, sl.Low)
-			hb, hi, ok2 := addConst(info, sl.High)
-			if !ok1 || !ok2 || lb != hb {
+			w, ok := constWidth(info, f, sl)
+			if !ok {
 				okAll = false
 				return true
 			}
-			if hi-lo > maxDigits {
-				maxDigits = hi - lo
+			if w > maxDigits {
+				maxDigits = w
 			}
 			return true
 		})
@@ -418,6 +422,75 @@ func crash2Exception(c *Ctx, pk *packages.Package, fd *ast.FuncDecl, call *ast.C
 		}
 		return true
 	})
+	// keys handed back by a same-package helper: registered if every return of the helper passes,
+	// at that position, a key the helper itself registered
+	regIn := func(h *ast.FuncDecl) map[types.Object]bool {
+		m := map[types.Object]bool{}
+		ast.Inspect(h.Body, func(n ast.Node) bool {
+			if c2, ok := n.(*ast.CallExpr); ok {
+				if f := calleeFunc(info, c2); f != nil && (f.Name() == "AddState" || f.Name() == "GetStateByKey") && len(c2.Args) >= 1 {
+					m[usesObj(info, c2.Args[0])] = true
+				}
+			}
+			return true
+		})
+		return m
+	}
+	ast.Inspect(fd.Body, func(n ast.Node) bool {
+		as, ok := n.(*ast.AssignStmt)
+		if !ok || len(as.Rhs) != 1 {
+			return true
+		}
+		hc, ok := ast.Unparen(as.Rhs[0]).(*ast.CallExpr)
+		if !ok {
+			return true
+		}
+		hf := calleeFunc(info, hc)
+		if hf == nil || hf.Pkg() != pk.Types {
+			return true
+		}
+		h := c.Prog.funcDecls[hf.Origin()]
+		if h == nil || h.Body == nil || h.Type.Results == nil {
+			return true
+		}
+		hreg := regIn(h)
+		var resNames []types.Object
+		for _, f := range h.Type.Results.List {
+			if len(f.Names) == 0 {
+				resNames = append(resNames, nil)
+			}
+			for _, nm := range f.Names {
+				resNames = append(resNames, info.Defs[nm])
+			}
+		}
+		for i, l := range as.Lhs {
+			if i >= len(resNames) {
+				break
+			}
+			all, nRet := true, 0
+			inspectNoLit(h.Body, func(m ast.Node) bool {
+				rs, ok := m.(*ast.ReturnStmt)
+				if !ok {
+					return true
+				}
+				nRet++
+				var o types.Object
+				if len(rs.Results) == 0 {
+					o = resNames[i]
+				} else if i < len(rs.Results) {
+					o = usesObj(info, rs.Results[i])
+				}
+				if o == nil || !hreg[o] {
+					all = false
+				}
+				return true
+			})
+			if all && nRet > 0 {
+				registered[usesObj(info, l)] = true
+			}
+		}
+		return true
+	})
 	okAll, n := true, 0
 	ast.Inspect(fd.Body, func(n2 ast.Node) bool {
 		c2, ok := n2.(*ast.CallExpr)
@@ -426,7 +499,7 @@ func crash2Exception(c *Ctx, pk *packages.Package, fd *ast.FuncDecl, call *ast.C
 		}
 		isNew := fullName(calleeFunc(info, c2)) == modPath+"/internal/base/set.New"
 		sel, isSel := c2.Fun.(*ast.SelectorExpr)
-		isAdd := isSel && sel.Sel.Name == "Add" && strings.Contains(exprString(sel.X), "pending") && len(c2.Args) == 1
+		isAdd := isSel && sel.Sel.Name == "Add" && len(c2.Args) == 1 && isStringSet(info.TypeOf(sel.X))
 		if (isNew || isAdd) && len(c2.Args) == 1 {
 			if t := info.TypeOf(c2.Args[0]); t != nil && isString(t) {
 				n++
@@ -467,62 +540,99 @@ func ruleCRASH3(c *Ctx) {
 		bySpelling[s] = o.Name()
 	}
 	nSw := 0
+	// action parameters a helper's parameter can stand for: helper param => [(action, index)]
+	type actParam struct {
+		fd  *ast.FuncDecl
+		idx int
+	}
+	paramIndexOf := func(fd *ast.FuncDecl, o types.Object) int {
+		k := 0
+		for _, fld := range fd.Type.Params.List {
+			for _, nm := range fld.Names {
+				if info.Defs[nm] == o {
+					return k
+				}
+				k++
+			}
+		}
+		return -1
+	}
+	countParams := func(fd *ast.FuncDecl) int {
+		k := 0
+		for _, fld := range fd.Type.Params.List {
+			k += len(fld.Names)
+		}
+		return k
+	}
+	var allDecls []*ast.FuncDecl
 	for _, f := range pk.Syntax {
 		if isGenFile(p, f) || isTestFile(p.Fset, f) {
 			continue
 		}
 		for _, d := range f.Decls {
-			fd, ok := d.(*ast.FuncDecl)
-			if !ok || fd.Body == nil || !strings.HasPrefix(fd.Name.Name, "on_") {
+			if fd, ok := d.(*ast.FuncDecl); ok && fd.Body != nil {
+				allDecls = append(allDecls, fd)
+			}
+		}
+	}
+	standsFor := func(fd *ast.FuncDecl, o types.Object) []actParam {
+		k := paramIndexOf(fd, o)
+		if k < 0 {
+			return nil
+		}
+		if strings.HasPrefix(fd.Name.Name, "on_") {
+			return []actParam{{fd, k}}
+		}
+		// a helper: the action parameters passed for it at its call sites
+		var out []actParam
+		fnObj, _ := info.Defs[fd.Name].(*types.Func)
+		for _, caller := range allDecls {
+			if !strings.HasPrefix(caller.Name.Name, "on_") {
 				continue
 			}
-			ruleName := strings.TrimPrefix(fd.Name.Name, "on_")
-			if i := strings.Index(ruleName, "__"); i >= 0 {
-				ruleName = ruleName[:i]
+			ast.Inspect(caller.Body, func(n ast.Node) bool {
+				call, ok := n.(*ast.CallExpr)
+				if !ok || fnObj == nil || calleeFunc(info, call) != fnObj || k >= len(call.Args) {
+					return true
+				}
+				if ck := paramIndexOf(caller, usesObj(info, call.Args[k])); ck >= 0 {
+					out = append(out, actParam{caller, ck})
+				}
+				return true
+			})
+		}
+		return out
+	}
+	for _, fd := range allDecls {
+		par := parents(fd)
+		ast.Inspect(fd.Body, func(n ast.Node) bool {
+			pc, ok := n.(*ast.CallExpr)
+			if !ok || !isPanicCall(info, pc) {
+				return true
 			}
-			nParams := 0
-			paramIdx := map[types.Object]int{}
-			for _, fld := range fd.Type.Params.List {
-				for _, nm := range fld.Names {
-					paramIdx[info.Defs[nm]] = nParams
-					nParams++
-				}
+			tok, labels := tokenExclusion(info, par, pc)
+			if tok == nil || len(labels) == 0 {
+				return true
 			}
-			ast.Inspect(fd.Body, func(n ast.Node) bool {
-				sw, ok := n.(*ast.SwitchStmt)
-				if !ok || sw.Tag == nil {
-					return true
+			sites := standsFor(fd, tok)
+			if len(sites) == 0 {
+				return true
+			}
+			nSw++
+			for _, site := range sites {
+				ruleName := strings.TrimPrefix(site.fd.Name.Name, "on_")
+				if i := strings.Index(ruleName, "__"); i >= 0 {
+					ruleName = ruleName[:i]
 				}
-				sel, ok := ast.Unparen(sw.Tag).(*ast.SelectorExpr)
-				if !ok || sel.Sel.Name != "Type" {
-					return true
+				nParams, k := countParams(site.fd), site.idx
+				construct := fmt.Sprintf("parser.%s/switch(%s.Type)", site.fd.Name.Name, tok.Name())
+				if site.fd != fd {
+					construct = fmt.Sprintf("parser.%s/%s(%s.Type)", site.fd.Name.Name, fd.Name.Name, tok.Name())
 				}
-				k, isParam := paramIdx[usesObj(info, sel.X)]
-				if !isParam {
-					return true
-				}
-				hasPanicDefault := false
-				labels := map[string]bool{}
-				for _, cl := range sw.Body.List {
-					cc := cl.(*ast.CaseClause)
-					if cc.List == nil && clauseHasPanic(info, cc.Body) {
-						hasPanicDefault = true
-					}
-					for _, l := range cc.List {
-						if o := usesObj(info, l); o != nil {
-							labels[o.Name()] = true
-						}
-					}
-				}
-				if !hasPanicDefault {
-					return true
-				}
-				nSw++
-				construct := fmt.Sprintf("parser.%s/switch(%s.Type)", fd.Name.Name, exprString(sel.X))
 				alts, known := rules[ruleName]
 				if !known {
-					c.unres(rule, construct, p.Pos(sw.Pos()), "rule %q not found in the grammar source next to the package", ruleName)
-					return true
+					c.unres(rule, construct, p.Pos(pc.Pos()), "rule %q not found in the grammar source next to the package", ruleName)
+					continue
 				}
 				var missing []string
 				nCand := 0
@@ -530,36 +640,35 @@ func ruleCRASH3(c *Ctx) {
 					if len(alt) != nParams || k >= len(alt) {
 						continue
 					}
-					tok, isLit, isTok := loxTermToken(alt[k])
+					tokName, isLit, isTok := loxTermToken(alt[k])
 					if !isTok {
 						continue
 					}
-					// every other parameter position must be plausible too: skip (over-approximate)
-					name := tok
+					name := tokName
 					if isLit {
-						name = bySpelling[tok]
-						if tok == "@error" && name == "" {
+						name = bySpelling[tokName]
+						if tokName == "@error" && name == "" {
 							name = bySpelling["@error"]
 						}
 					}
 					nCand++
 					if name == "" {
-						missing = append(missing, "'"+tok+"' (no token constant found)")
+						missing = append(missing, "'"+tokName+"' (no token constant found)")
 					} else if !labels[name] {
 						missing = append(missing, name)
 					}
 				}
 				if nCand == 0 {
-					c.unres(rule, construct, p.Pos(sw.Pos()), "no production of %q delivers a token to parameter %d", ruleName, k)
-					return true
+					c.unres(rule, construct, p.Pos(pc.Pos()), "no production of %q delivers a token to parameter %d", ruleName, k)
+					continue
 				}
 				sort.Strings(missing)
-				c.check(len(missing) == 0, rule, construct, p.Pos(sw.Pos()),
-					fmt.Sprintf("the %d token(s) the productions of %q can deliver to this parameter all have a case", nCand, ruleName),
-					fmt.Sprintf("the grammar can deliver token(s) %v to this parameter, which fall into the panicking default arm", missing))
-				return true
-			})
-		}
+				c.check(len(missing) == 0, rule, construct, p.Pos(pc.Pos()),
+					fmt.Sprintf("the %d token(s) the productions of %q can deliver to this parameter are all handled before the panic", nCand, ruleName),
+					fmt.Sprintf("the grammar can deliver token(s) %v to this parameter, which reach the panic", missing))
+			}
+			return true
+		})
 	}
 	if nSw < 5 {
 		c.unres(rule, "parser/token-switches", "", "only %d token-type switches with a panicking default found; 6 were confirmed by hand", nSw)
@@ -607,23 +716,128 @@ func ruleCRASH3(c *Ctx) {
 	}
 	okWidths := true
 	widthWhy := ""
+	// The index variable, and for every arm the total by which one trip through the loop advances
+	// it: increments inside the arm, increments after the switch in the same block, and the loop's
+	// post statement, evaluated with the constants the arm assigns to locals (falling back to the
+	// constant a local was defined with). An escape of w hex digits must advance by 2 + w and read
+	// lit[i+2 : i+2+w].
+	uePar := parents(ue)
+	ueDefs := localDefs(info, ue)
+	var idxObj types.Object
+	if ix, ok := ast.Unparen(resolveVia(info, ueDefs, esw.Tag)).(*ast.IndexExpr); ok {
+		ast.Inspect(ix.Index, func(n ast.Node) bool {
+			if id, ok := n.(*ast.Ident); ok {
+				if v, isVar := info.Uses[id].(*types.Var); isVar && idxObj == nil {
+					idxObj = v
+				}
+			}
+			return true
+		})
+	}
+	if idxObj == nil {
+		okWidths, widthWhy = false, "the index variable of the escape switch was not identified"
+	}
+	defaults := map[string]int64{} // locals defined with a constant
+	ast.Inspect(ue.Body, func(n ast.Node) bool {
+		if as, ok := n.(*ast.AssignStmt); ok && as.Tok == token.DEFINE && len(as.Lhs) == len(as.Rhs) {
+			for i, l := range as.Lhs {
+				if v, isC := constInt(info, as.Rhs[i]); isC {
+					if o := usesObj(info, l); o != nil && o != idxObj {
+						defaults[o.Name()] = v
+					}
+				}
+			}
+		}
+		return true
+	})
+	evalWith := func(e ast.Expr, env map[string]int64) (coefIdx int64, k int64, ok bool) {
+		terms, k0 := linearForm(info, nil, e)
+		k = k0
+		for a, co := range terms {
+			switch {
+			case idxObj != nil && a == idxObj.Name():
+				coefIdx = co
+			default:
+				v, known := env[a]
+				if !known {
+					return 0, 0, false
+				}
+				k += co * v
+			}
+		}
+		return coefIdx, k, true
+	}
+	advanceOf := func(st ast.Stmt, env map[string]int64) (int64, bool) {
+		switch x := st.(type) {
+		case *ast.IncDecStmt:
+			if usesObj(info, x.X) == idxObj && x.Tok == token.INC {
+				return 1, true
+			}
+		case *ast.AssignStmt:
+			if x.Tok == token.ADD_ASSIGN && len(x.Lhs) == 1 && usesObj(info, x.Lhs[0]) == idxObj {
+				if ci, k, ok := evalWith(x.Rhs[0], env); ok && ci == 0 {
+					return k, true
+				}
+				return 0, false
+			}
+		}
+		return 0, true
+	}
+	// statements following the switch in its block, and the loop's post statement
+	var tail []ast.Stmt
+	if blk := enclosingList(uePar, esw); blk != nil {
+		seen := false
+		for _, st := range blk {
+			if seen {
+				tail = append(tail, st)
+			}
+			if st == ast.Stmt(esw) {
+				seen = true
+			}
+		}
+	}
+	for q := uePar[ast.Node(esw)]; q != nil; q = uePar[q] {
+		if fs, ok := q.(*ast.ForStmt); ok {
+			if fs.Post != nil {
+				tail = append(tail, fs.Post)
+			}
+			break
+		}
+	}
 	for _, cl := range esw.Body.List {
 		cc := cl.(*ast.CaseClause)
 		for _, l := range cc.List {
 			v, ok := constInt(info, l)
-			if !ok {
+			if !ok || idxObj == nil {
 				continue
 			}
-			extra := int64(0)
-			// slice width used and index advance
-			var width, adv int64 = 0, -1
-			for _, s := range cc.Body {
-				ast.Inspect(s, func(m ast.Node) bool {
+			env := map[string]int64{}
+			for k2, v2 := range defaults {
+				env[k2] = v2
+			}
+			for _, st := range cc.Body {
+				if as, ok := st.(*ast.AssignStmt); ok && as.Tok == token.ASSIGN && len(as.Lhs) == len(as.Rhs) {
+					for i, lh := range as.Lhs {
+						if cv, isC := constInt(info, as.Rhs[i]); isC {
+							if o := usesObj(info, lh); o != nil {
+								env[o.Name()] = cv
+							}
+						}
+					}
+				}
+			}
+			var width int64
+			for _, st := range cc.Body {
+				ast.Inspect(st, func(m ast.Node) bool {
 					if sl, ok := m.(*ast.SliceExpr); ok && sl.Low != nil && sl.High != nil {
-						_, lo, _ := addConst(info, sl.Low)
-						_, hi, _ := addConst(info, sl.High)
+						cl1, lo, ok1 := evalWith(sl.Low, env)
+						ch1, hi, ok2 := evalWith(sl.High, env)
+						if !ok1 || !ok2 || cl1 != 1 || ch1 != 1 {
+							okWidths = false
+							widthWhy = fmt.Sprintf("escape %q reads `%s`, which is not a window relative to the index", rune(v), exprString(sl))
+							return true
+						}
 						width = hi - lo
-						extra = hi - 2 // characters after the escape letter: lit[i+2 : i+2+w]
 						if lo != 2 {
 							okWidths = false
 							widthWhy = fmt.Sprintf("escape %q reads from offset %d", rune(v), lo)
@@ -631,23 +845,23 @@ func ruleCRASH3(c *Ctx) {
 					}
 					return true
 				})
-				switch x := s.(type) {
-				case *ast.IncDecStmt:
-					if x.Tok == token.INC {
-						adv = 1
-					}
-				case *ast.AssignStmt:
-					if x.Tok == token.ADD_ASSIGN {
-						adv, _ = constInt(info, x.Rhs[0])
-					}
+			}
+			adv := int64(0)
+			okAdv := true
+			for _, st := range append(append([]ast.Stmt{}, cc.Body...), tail...) {
+				d, ok := advanceOf(st, env)
+				if !ok {
+					okAdv = false
 				}
+				adv += d
 			}
-			if adv != 1+width {
+			if !okAdv {
 				okWidths = false
-				widthWhy = fmt.Sprintf("escape %q consumes %d characters but the index advances by %d", rune(v), 1+width, adv)
+				widthWhy = fmt.Sprintf("the advance of the index after escape %q is not a constant", rune(v))
+			} else if adv != 2+width {
+				okWidths = false
+				widthWhy = fmt.Sprintf("escape %q consumes %d characters but one trip through the loop advances the index by %d", rune(v), 2+width, adv)
 			}
-			handled[v] = extra
-			_ = extra
 			handled[v] = width
 		}
 	}
@@ -1229,4 +1443,257 @@ func loggedLoopOverNonEmpty(info *types.Info, fd *ast.FuncDecl, rs *ast.ReturnSt
 		}
 	}
 	return false
+}
+
+// isStringSet: set.Set[string] (the type of the pending-key worklists).
+func isStringSet(t types.Type) bool {
+	n, ok := deref(t).(*types.Named)
+	if !ok || n.Obj().Name() != "Set" || n.TypeArgs() == nil || n.TypeArgs().Len() != 1 {
+		return false
+	}
+	return isString(n.TypeArgs().At(0))
+}
+
+// ---- CRASH-7: a value returned together with an error is used only where the error is nil ----
+//
+// For every `v, err := f(...)` in the generator's own packages whose last result is an error: each
+// use of v must lie on a path where `err == nil` is a known fact (an `if err != nil { leave }`
+// earlier in the list, or an enclosing `err == nil` arm). Testing v against nil is not a
+// substitute: go/parser, go/packages and os return usable-looking partial values together with an
+// error, and the code after the call dereferences them.
+func ruleCRASH7(c *Ctx) {
+	const rule = "CRASH-7"
+	p := c.Prog
+	nSites := 0
+	p.ProdFiles(func(pk *packages.Package, f *ast.File) {
+		if strings.HasSuffix(p.Fset.File(f.Pos()).Name(), ".gen.go") {
+			return
+		}
+		rel := strings.TrimPrefix(pk.PkgPath, modPath+"/")
+		if !(strings.HasPrefix(rel, "internal/codegen") || strings.HasPrefix(rel, "cmd/") || strings.HasPrefix(rel, "internal/ast") || strings.HasPrefix(rel, "internal/parser") || strings.HasPrefix(rel, "internal/base/baseline")) {
+			return
+		}
+		info := pk.TypesInfo
+		for _, d := range f.Decls {
+			fd, ok := d.(*ast.FuncDecl)
+			if !ok || fd.Body == nil {
+				continue
+			}
+			par := parents(fd)
+			ast.Inspect(fd.Body, func(n ast.Node) bool {
+				as, ok := n.(*ast.AssignStmt)
+				if !ok || len(as.Rhs) != 1 || len(as.Lhs) < 2 {
+					return true
+				}
+				call, ok := ast.Unparen(as.Rhs[0]).(*ast.CallExpr)
+				if !ok {
+					return true
+				}
+				tup, ok := info.TypeOf(call).(*types.Tuple)
+				if !ok || tup.Len() != len(as.Lhs) || !isErrorType(tup.At(tup.Len()-1).Type()) {
+					return true
+				}
+				errObj := usesObj(info, as.Lhs[len(as.Lhs)-1])
+				if errObj == nil || errObj.Name() == "_" {
+					return true // discarded errors are errcheck's subject, not a typestate one
+				}
+				for i := 0; i < len(as.Lhs)-1; i++ {
+					if _, isIdent := ast.Unparen(as.Lhs[i]).(*ast.Ident); !isIdent {
+						continue // stored straight into a field: its readers are not local
+					}
+					vObj := usesObj(info, as.Lhs[i])
+					if vObj == nil || vObj.Name() == "_" {
+						continue
+					}
+					nSites++
+					construct := funcKey(pk, fd) + "/" + calleeLabel(info, call) + "→" + vObj.Name()
+					var badUse ast.Node
+					nUses := 0
+					ast.Inspect(fd.Body, func(m ast.Node) bool {
+						id, ok := m.(*ast.Ident)
+						if !ok || info.Uses[id] != vObj || id.Pos() < as.End() || badUse != nil {
+							return true
+						}
+						// reassigned before this use? then it is another value (stop at the
+						// first redefinition in source order)
+						if redefinedBetween(info, fd, vObj, errObj, as, id) {
+							return true
+						}
+						// being overwritten is not a use
+						if w, ok := par[id].(*ast.AssignStmt); ok {
+							for _, l := range w.Lhs {
+								if l == ast.Expr(id) {
+									return true
+								}
+							}
+						}
+						// a bare nil test of v itself is harmless
+						if be, ok := par[id].(*ast.BinaryExpr); ok && (be.Op == token.EQL || be.Op == token.NEQ) && (exprString(be.X) == "nil" || exprString(be.Y) == "nil") {
+							return true
+						}
+						nUses++
+						okFact := holds(pathConds(info, par, id), func(e ast.Expr, pos bool) bool {
+							l, op, r, ok := cmpFact(e, pos)
+							if !ok || op != token.EQL || e.Pos() < as.End() {
+								return false // (a test made before this call is about an earlier error value)
+							}
+							return (usesObj(info, l) == errObj && exprString(r) == "nil") || (usesObj(info, r) == errObj && exprString(l) == "nil")
+						})
+						if !okFact {
+							badUse = id
+						}
+						return true
+					})
+					if badUse != nil {
+						c.bad(rule, construct, p.Pos(badUse.Pos()), "`%s` is used at %s on a path where `%s == nil` is not established (the call at %s can return a partial value together with an error)", vObj.Name(), p.Pos(badUse.Pos()), errObj.Name(), p.Pos(call.Pos()))
+					} else {
+						c.ok(rule, construct, p.Pos(as.Pos()), "all %d uses of `%s` follow a test that `%s` is nil", nUses, vObj.Name(), errObj.Name())
+					}
+				}
+				return true
+			})
+		}
+	})
+	c.floor(rule, 8)
+	_ = nSites
+}
+
+func isErrorType(t types.Type) bool {
+	n, ok := t.(*types.Named)
+	return ok && n.Obj().Pkg() == nil && n.Obj().Name() == "error"
+}
+
+func calleeLabel(info *types.Info, call *ast.CallExpr) string {
+	if fn := calleeFunc(info, call); fn != nil {
+		return shortName(fn)
+	}
+	return truncate(exprString(call.Fun), 30)
+}
+
+// redefinedBetween: v or err is assigned again (other than by `def`) at a position between def and use.
+func redefinedBetween(info *types.Info, fd *ast.FuncDecl, v, errObj types.Object, def *ast.AssignStmt, use *ast.Ident) bool {
+	re := false
+	ast.Inspect(fd.Body, func(n ast.Node) bool {
+		as, ok := n.(*ast.AssignStmt)
+		if !ok || as == def || as.Pos() <= def.Pos() || as.End() > use.Pos() {
+			return true
+		}
+		for _, l := range as.Lhs {
+			if o := usesObj(info, l); o == v {
+				re = true
+			}
+		}
+		return true
+	})
+	return re
+}
+
+// tokenExclusion: the panic (or any node) n is reached only when the Type of one Token-typed
+// variable differs from each of a list of constants (path facts: default arm of a switch over
+// tok.Type, the tail of an if-chain, guards that returned). Returns the variable and the constants.
+func tokenExclusion(info *types.Info, par map[ast.Node]ast.Node, n ast.Node) (types.Object, map[string]bool) {
+	var tok types.Object
+	handled := map[string]bool{}
+	for _, f := range pathConds(info, par, n) {
+		l, op, r, ok := cmpFact(f.e, !f.neg)
+		if !ok || op != token.NEQ {
+			continue
+		}
+		for _, pr := range [][2]ast.Expr{{l, r}, {r, l}} {
+			sel, isSel := ast.Unparen(pr[0]).(*ast.SelectorExpr)
+			if !isSel || sel.Sel.Name != "Type" || !typeIs(info.TypeOf(sel.X), "simplelexer", "Token") {
+				continue
+			}
+			k, isK := usesObj(info, pr[1]).(*types.Const)
+			o := usesObj(info, sel.X)
+			if !isK || o == nil || (tok != nil && tok != o) {
+				continue
+			}
+			tok = o
+			handled[k.Name()] = true
+		}
+	}
+	return tok, handled
+}
+
+// constWidth computes High - Low of a slice expression when it is a constant: the variable parts
+// must cancel, after locals have been replaced by the constant they hold at that point (assigned
+// in the enclosing case arm, else the constant they were defined with).
+func constWidth(info *types.Info, file *ast.File, sl *ast.SliceExpr) (int64, bool) {
+	fn := enclosingFuncNode(file, sl)
+	if fn == nil {
+		return 0, false
+	}
+	env := map[string]int64{}
+	ast.Inspect(fn, func(n ast.Node) bool {
+		if as, ok := n.(*ast.AssignStmt); ok && as.Tok == token.DEFINE && len(as.Lhs) == len(as.Rhs) {
+			for i, l := range as.Lhs {
+				if v, isC := constInt(info, as.Rhs[i]); isC {
+					if o := usesObj(info, l); o != nil {
+						env[o.Name()] = v
+					}
+				}
+			}
+		}
+		return true
+	})
+	par := parents(fn)
+	for q := par[ast.Node(sl)]; q != nil; q = par[q] {
+		if cc, ok := q.(*ast.CaseClause); ok {
+			for _, st := range cc.Body {
+				if as, ok := st.(*ast.AssignStmt); ok && as.Tok == token.ASSIGN && len(as.Lhs) == len(as.Rhs) && as.End() <= sl.Pos() {
+					for i, l := range as.Lhs {
+						if v, isC := constInt(info, as.Rhs[i]); isC {
+							if o := usesObj(info, l); o != nil {
+								env[o.Name()] = v
+							}
+						}
+					}
+				}
+			}
+			break
+		}
+	}
+	// a local is only substituted if all its writes are constant assignments
+	nonConst := map[string]bool{}
+	ast.Inspect(fn, func(n ast.Node) bool {
+		switch x := n.(type) {
+		case *ast.AssignStmt:
+			for i, l := range x.Lhs {
+				o := usesObj(info, l)
+				if o == nil {
+					continue
+				}
+				if len(x.Lhs) != len(x.Rhs) || x.Tok != token.ASSIGN && x.Tok != token.DEFINE {
+					nonConst[o.Name()] = true
+					continue
+				}
+				if _, isC := constInt(info, x.Rhs[i]); !isC {
+					nonConst[o.Name()] = true
+				}
+			}
+		case *ast.IncDecStmt:
+			if o := usesObj(info, x.X); o != nil {
+				nonConst[o.Name()] = true
+			}
+		}
+		return true
+	})
+	lt, lk := linearForm(info, nil, sl.Low)
+	ht, hk := linearForm(info, nil, sl.High)
+	w := hk - lk
+	for a, co := range lt {
+		ht[a] -= co
+	}
+	for a, co := range ht {
+		if co == 0 {
+			continue
+		}
+		v, known := env[a]
+		if !known || nonConst[a] {
+			return 0, false
+		}
+		w += co * v
+	}
+	return w, true
 }
